@@ -68,14 +68,38 @@ theorem updateValidators_tfr {s s' : St} {ups : List ValUpdate} (h : updateValid
     cases h
     exact ⟨by simp [TFr], nv, hnv, rfl⟩
 
+theorem feeHandover_lv {s s' : St} {b : BlockCtx} (h : feeHandover s b = .ok s') : s'.lastVals = s.lastVals := by
+  unfold feeHandover at h
+  split at h
+  · simp only [] at h
+    split at h
+    · cases h
+    · cases h; exact (setAcct_frAll _ _ _).1.2.2.2.2.1
+  · cases h; rfl
+
+theorem unfreeze_lv {s s' : St} {height : Int} (h : unfreeze s height = .ok s') : s'.lastVals = s.lastVals := by
+  rw [unfreeze_eq] at h
+  refine foldl_resStep_inv (unfreezeOne height) (fun x => x.lastVals = s.lastVals) _ ?_ s s' rfl h
+  intro x kst x' _ q hx
+  unfold unfreezeOne at hx
+  split at hx
+  · split at hx
+    · cases hx
+    · rename_i s1 hs1
+      cases hx
+      have := (reward_frAll hs1).1.2.2.2.2.1
+      show s1.lastVals = s.lastVals
+      rw [this]; exact q
+  · cases hx; exact q
+
 /-- the result state of `endBlock` is the input, or the state after a prefix of its five steps -/
 theorem endBlock_ind (s : St) (P : St → Prop) (h0 : P s)
     (h1 : ∀ b s1, s.blk = some b → freezeProposals s b.height = .ok s1 → P s1)
     (h2 : ∀ b s1 s2, s.blk = some b → freezeProposals s b.height = .ok s1 → applyProposals s1 b.height = .ok s2 → P s2)
     (ht : ∀ b s1 s2 s', s.blk = some b → freezeProposals s b.height = .ok s1 → applyProposals s1 b.height = .ok s2 →
-      TFr s2 s' → P s2 → P s')
+      (TFr s2 s' ∧ s'.lastVals = s2.lastVals) → P s2 → P s')
     (hv : ∀ b s1 s2 s4 s5 ups, s.blk = some b → freezeProposals s b.height = .ok s1 → applyProposals s1 b.height = .ok s2 →
-      TFr s2 s4 → P s4 → updateValidators s4 = .ok (s5, ups) → P s5) :
+      (TFr s2 s4 ∧ s4.lastVals = s2.lastVals) → P s4 → updateValidators s4 = .ok (s5, ups) → P s5) :
     P (endBlock s).1 := by
   unfold endBlock
   split
@@ -91,11 +115,12 @@ theorem endBlock_ind (s : St) (P : St → Prop) (h0 : P s)
         split
         · exact p2
         · rename_i s3 hs3
-          have t3 := feeHandover_tfr hs3
+          have t3 : TFr s2 s3 ∧ s3.lastVals = s2.lastVals := ⟨feeHandover_tfr hs3, feeHandover_lv hs3⟩
           split
           · exact ht b s1 s2 s3 hb hs1 hs2 t3 p2
           · rename_i s4 hs4
-            have t4 := t3.trans (unfreeze_tfr hs4)
+            have t4 : TFr s2 s4 ∧ s4.lastVals = s2.lastVals :=
+              ⟨t3.1.trans (unfreeze_tfr hs4), by rw [unfreeze_lv hs4, t3.2]⟩
             have p4 := ht b s1 s2 s4 hb hs1 hs2 t4 p2
             split
             · exact p4
@@ -134,7 +159,7 @@ theorem endBlock_spec (s : St) (P : String → Proposal → Prop)
       have : s1.fprops.committed = s.fprops.committed := by unfold Led.committed; rw [e.2.2.2.2.2.1]
       rw [← this]; exact a1
   · intro b s1 s2 s' _ _ _ t p2
-    obtain ⟨t1, t2, _, t4, t5, t6, t7, _⟩ := t
+    obtain ⟨t1, t2, _, t4, t5, t6, t7, _⟩ := t.1
     rw [t4, t6, t7, t1, t2, t5]; exact p2
   · intro b s1 s2 s4 s5 ups _ _ _ _ p4 hu
     obtain ⟨⟨t1, t2, _, t4, t5, t6, t7, _⟩, _⟩ := updateValidators_tfr hu
